@@ -121,14 +121,25 @@ def rule_paths(ctx):
             if be is not None:
                 atom, labels = be
                 alts = list(atom[1]) if atom[0] == "phi" else [atom]
-                calls_ = [a_ for a_ in alts if a_[0] == "call" and "raw_filter::apply" in a_[1]]
-                consts = [a_[1] for a_ in alts if a_[0] == "const" and isinstance(a_[1], bool)]
+                calls_, consts = [], []
+                for a_ in alts:
+                    neg_ = False
+                    while a_[0] == "unop" and a_[1] == "Not":
+                        a_, neg_ = a_[2], not neg_
+                    if a_[0] == "call" and "raw_filter::apply" in a_[1]:
+                        calls_.append(neg_)
+                    elif a_[0] == "const" and isinstance(a_[1], bool):
+                        consts.append(a_[1] != neg_)
                 if len(calls_) == 1 and len(calls_) + len(consts) == len(alts) and len(set(consts)) <= 1:
-                    for succ, lab in labels.items():
-                        if lab is False and (not consts or consts[0] is True):
-                            rej = succ
-                        elif lab is True:
-                            adm = succ
+                    # the tested value is apply(..) (or its negation) on the filtered path and a constant otherwise: the rejected edge is
+                    # the one only apply == false can take
+                    rej_label = calls_[0]          # value of the tested boolean when apply returned false
+                    if not consts or consts[0] != rej_label:
+                        for succ, lab in labels.items():
+                            if lab is rej_label:
+                                rej = succ
+                            elif lab is (not rej_label):
+                                adm = succ
                     break
             todo.extend(s_ for s_ in b.succs(x) if s_ not in seen_f)
         if rej is None or adm is None:
